@@ -60,7 +60,10 @@ IdOp(op) == op \in {"guids", "iguids", "txguids", "featguids", "idents"}
 WidensBeyondChunk(ev) ==
   LET pre == ev[2] c == Coll(ev[2]) IN
   IdOp(ev[3]) /\ pre[4] /\ \E m \in c[3] : MS(m) < c[1] \/ ME(m) > c[2]
-Raw(ev) == IF VQ(ev) # "ok" THEN VQ(ev) ELSE IF ev[5][1] = "v" THEN VSeq(ev) ELSE "ok"
+(* "precisely the matching members": no member is returned twice *)
+VDistinct(ev) == LET mem == ev[5][2][3] IN
+  Ok(\A i, j \in DOMAIN mem : i # j => mem[i][1] # mem[j][1], "result-members-distinct")
+Raw(ev) == IF VQ(ev) # "ok" THEN VQ(ev) ELSE IF ev[5][1] = "v" THEN (IF VDistinct(ev) # "ok" THEN VDistinct(ev) ELSE VSeq(ev)) ELSE "ok"
 Verdict(ev) == IF ev[1] # "q" THEN "unknown-op"
                ELSE IF Raw(ev) # "ok" /\ WidensBeyondChunk(ev) /\ (ev[5][1] = "v" \/ ev[5][2] = "NullSequenceException")
                     THEN "id-query:widens-beyond-sequence-chunk" ELSE Raw(ev)
